@@ -67,7 +67,9 @@ TRetry == /\ Is("retry")
           /\ failedNow' = FALSE /\ attempt' = attempt + 1 /\ inflight' = {}
           /\ Step({}, Bump(stat, "retries"))
           /\ UNCHANGED <<id, stored, everFailed>>
-TNext == TBegin \/ TMk \/ TSs \/ TSe \/ TRet \/ TRetry
+\* the tree is modified between a failed attempt and the retry (the observations of the next ret are against the new contents)
+TMod == /\ Is("mod") /\ Step({}, stat) /\ UNCHANGED <<id, inflight, stored, failedNow, everFailed, attempt>>
+TNext == TBegin \/ TMk \/ TSs \/ TSe \/ TRet \/ TRetry \/ TMod
 TSpec == TInit /\ [][TNext]_tvars
 Report == (l = Len(Trace) + 1) => PrintT(<<"REPORT", ToJson([viol |-> viol, stat |-> stat, consumed |-> l - 1])>>)
 =============================================================================
